@@ -251,6 +251,11 @@ def cases(tier):
                "reduced": True}
     for kind in ("sampled", "range"):
         yield {"k": "units", "kind": kind}
+    for rank in (2, 3):
+        for ks in itertools.product(("sampled", "range", "set"), repeat=rank):
+            if "set" in ks and any(k != "set" for k in ks):
+                for shift in ((0, 1, 2, 3) if (tier == "thorough" or rank == 2) else (0, 1)):
+                    yield {"k": "units-mixed", "kinds": list(ks), "shift": shift, "setunit": "none" if shift % 2 == 0 else ""}
     for k1 in ("sampled", "range", "set"):
         yield {"k": "mtag", "specs": [[k1, 0]], "shape": [5], "pos2d": False}
         yield {"k": "mtag", "specs": [[k1, 0]], "shape": [5], "pos2d": True}
@@ -356,6 +361,56 @@ def run_units(case, r):
                               data, sel, contained(c, p, e), st, got)
             finally:
                 s.close()
+
+
+MIXPAIRS = [("", "m"), ("m", ""), ("k", "u"), ("M", "M")]
+
+
+def run_units_mixed(case, r):
+    """rank 2-3 arrays mixing dimensions WITH a unit (tag prefix != dimension prefix) and category dimensions without
+    one, in every order: the conversion factor of one dimension must never be applied to another"""
+    kinds = case["kinds"]                      # e.g. ["sampled", "set", "range"]
+    n = 4
+    specs, units, tunits, scales = [], [], [], []
+    ui = 0
+    for k in kinds:
+        specs.append(variants(k, n)[0])
+        if k == "set":
+            units.append(None)
+            tunits.append(case["setunit"])     # "none" or "" : both mean 'no unit'
+            scales.append(Fr(1))
+        else:
+            tp, dp = MIXPAIRS[(ui + case["shift"]) % len(MIXPAIRS)]
+            ui += 1
+            units.append(dp + "s")
+            tunits.append(tp + "s")
+            scales.append(Fr(10) ** (PREF[tp] - PREF[dp]))
+    s = S(r)
+    try:
+        shape = tuple([n] * len(kinds))
+        da, data = mk_array(s, "d", shape, specs, units=units)
+        cs = [coords(sp, n) for sp in specs]
+        tag = s.b.create_tag("tag", "t", [0.0] * len(kinds))
+        tag.references.append(da)
+        tag.units = tunits
+
+        def regions(c):
+            def mid(i):
+                return c[i] + (c[i + 1] - c[i]) / 2
+            return [(mid(0), mid(2) - mid(0)), (mid(1), mid(2) - mid(1)), (mid(0), mid(1) - mid(0))]
+        for combo in itertools.product(*[regions(c) for c in cs]):
+            tag.position = [float(p / sc) for (p, _e), sc in zip(combo, scales)]
+            tag.extent = [float(e / sc) for (_p, e), sc in zip(combo, scales)]
+            for rn, rule in RULES:
+                sel = [select(c, p, e, rn) for c, (p, e) in zip(cs, combo)]
+                inside = all(contained(c, p, e) for c, (p, e) in zip(cs, combo))
+                st, got = observe(lambda: tag.tagged_data(0, rule))
+                judge(r, "C08|tag-units-mixed|%s|%s|%s" % ("+".join(kinds), "/".join("%s->%s" % (a, b or "-") for a, b in zip(tunits, units)), rn),
+                      "tag units %r on dimensions %s with units %r, region %r (in dimension units)" % (
+                          tunits, "+".join(kinds), units, [(float(p), float(e)) for p, e in combo]),
+                      data, sel, inside, st, got)
+    finally:
+        s.close()
 
 
 def run_mtag(case, r):
@@ -551,6 +606,6 @@ def run_multiref(case, r):
 
 def run_case(case):
     r = R()
-    {"tag": run_tag, "units": run_units, "mtag": run_mtag, "feat": run_feat, "nondyadic": run_nondyadic,
+    {"units-mixed": run_units_mixed, "tag": run_tag, "units": run_units, "mtag": run_mtag, "feat": run_feat, "nondyadic": run_nondyadic,
      "multiref": run_multiref}[case["k"]](case, r)
     return r
